@@ -684,7 +684,25 @@ static LinkedList *bufr_repl_descriptors
          int len;
 
          bsq = bufr_create_sequence( lst );
-         len = bufr_minimum_seq_length( bsq );
+/*
+ * measure the first occurrence with its Table D sequences and fixed replications 
+ * expanded: left as they are, they would count for nothing
+ */
+            {
+            BUFR_Sequence *one = bufr_copy_sequence( bsq );
+            LinkedList    *xl;
+            int            err1 = 0;
+
+            xl = bufr_expand_list( one->list, flags & ~OP_ZDRC_IGNORE, tbls, &err1, NULL );
+            if (xl != NULL)
+               {
+               one->list = xl;
+               len = bufr_minimum_seq_length( one );
+               }
+            else
+               len = bufr_minimum_seq_length( bsq );
+            bufr_free_sequence( one );
+            }
          len = len * count / 8;
          bsq->list = NULL;
          bufr_free_sequence( bsq );
